@@ -38,9 +38,16 @@ def gen_cases(ctx):
     for _ in range(ctx.n(400, 3000)):
         kind = rng.choice([None, None, "spider", "chain", "star"])
         n = rng.choice([3, 4, 5, 6, 7]) if kind else rng.choice([1, 2, 3, 4, 5, 6])
+        mode = rng.choice(MODES)
+        mixed = rng.random() < 0.5
+        small = mode == "FULL" or mixed          # FULL multiplies bond dimensions along every path: keep it small
+        if small:
+            n = min(n, 4)
+            kind = kind if kind in (None, "chain", "star") else None
         cases.append({"par": gen.random_parent_array(rng, n, kind), "seed": rng.randrange(10 ** 9),
-                      "mode": rng.choice(MODES), "moves": rng.randint(0, 6), "deficient": rng.random() < 0.3,
-                      "mixed": rng.random() < 0.5, "dtype": rng.choice(["complex", "complex", "float", "int"])})
+                      "mode": mode, "moves": rng.randint(0, 3 if small else 6), "deficient": rng.random() < 0.3,
+                      "small": small,
+                      "mixed": mixed, "dtype": rng.choice(["complex", "complex", "float", "int"])})
     return cases
 
 
@@ -108,7 +115,10 @@ def _make_state(case):
     rng = random.Random(case["seed"])
     nprng = np.random.default_rng(case["seed"])
     par = case["par"]
-    ttns, info = gen.random_ttns(rng, nprng, par, phys=(1, 2, 2, 3), bonds=(1, 2, 2, 3, 5))
+    if case.get("small") or case.get("mode") == "FULL":
+        ttns, info = gen.random_ttns(rng, nprng, par, phys=(1, 2, 2), bonds=(1, 2, 2, 3))
+    else:
+        ttns, info = gen.random_ttns(rng, nprng, par, phys=(1, 2, 2, 3), bonds=(1, 2, 2, 3, 5))
     dt = case.get("dtype", "complex")
     if dt != "complex":
         # real / integer element types (hand-written basis or GHZ-like tensors are integer arrays)
@@ -213,6 +223,7 @@ def _run_impl(ctx, case, qlog):
     ctx.hyp_validated += len(qlog.log)
     probs = _check_state(ttns, centre, case["mode"], v0, struct0, shapes0, order, f"canonical_form at {centre}")
     cur = centre
+    history_modes = [case["mode"]]
     # expected status per node: True = strict isometry, False = only a (zero-padded) partial isometry
     strict = {nid: case["mode"] != "KEEP" for nid in order}
     shapes_now = shapes0 if case["mode"] == "KEEP" else c06._shape_map(ttns)
@@ -221,6 +232,10 @@ def _run_impl(ctx, case, qlog):
             break
         new = rng.choice(order)
         op_mode_name = rng.choice(MODES) if case.get("mixed") else case["mode"]
+        if case.get("mixed") and op_mode_name == "FULL":
+            if sum(1 for m_ in history_modes if m_ == "FULL") >= 2:
+                op_mode_name = "REDUCED"
+        history_modes.append(op_mode_name)
         op_mode = getattr(SplitMode, op_mode_name)
         recanon = case.get("mixed") and rng.random() < 0.4
         qlog.log.clear()
